@@ -505,6 +505,14 @@ class Simulator:
         if len(self._errors) > 0:
             return self
 
+        # Integrators search for the steady state from their own start, so in case
+        # something was simulated already, start them at the state reached so far
+        if (variables := self.variables) is not None:
+            self.y0 = variables[-1].iloc[-1, :].to_dict()
+            self._time_shift = float(variables[-1].index[-1])
+            self._initialise_integrator()
+
+        n_segments = 0 if self.variables is None else len(self.variables)
         self._handle_simulation_results(
             self.integrator.integrate_to_steady_state(
                 tolerance=tolerance,
@@ -512,6 +520,12 @@ class Simulator:
             ),
             skipfirst=False,
         )
+
+        # ... and let a following simulation continue from the steady state
+        if (variables := self.variables) is not None and len(variables) > n_segments:
+            self.y0 = variables[-1].iloc[-1, :].to_dict()
+            self._time_shift = float(variables[-1].index[-1])
+            self._initialise_integrator()
         return self
 
     def get_result(self) -> Result[Simulation]:
